@@ -206,6 +206,7 @@ pub struct ModelRun {
     pub max_frames: usize,
     pub max_loops: usize,
     pub lines_visited: Vec<u64>,
+    pub lines_visited_without_separator_only_visits: Vec<u64>,
 }
 
 impl ModelRun {
@@ -277,6 +278,27 @@ pub fn run_model(prog: &Program, seed: u64, replies: &[String], turn_cap: usize)
         }
     }
     run.lines_visited = visited;
+    // the same without the visits during which nothing but `:` separators were entered (a jump that lands on a trailing
+    // `:`): whether a separator is a statement of its own, and so whether such a visit leaves a trace record, is not
+    // part of any property (seeded/refactors/colon-not-a-turn.diff)
+    let mut visits: Vec<(u64, bool)> = vec![]; // (line, only separators so far)
+    for t in &run.turns {
+        for e in &t.events {
+            if let Ev::Trace(l) = e {
+                match visits.last_mut() {
+                    Some((line, only_sep)) if *line == *l => *only_sep = *only_sep && t.separator,
+                    _ => visits.push((*l, t.separator)),
+                }
+            }
+        }
+    }
+    let mut alt: Vec<u64> = vec![];
+    for (l, only_sep) in visits {
+        if !only_sep && alt.last() != Some(&l) {
+            alt.push(l);
+        }
+    }
+    run.lines_visited_without_separator_only_visits = alt;
     run
 }
 
